@@ -2,7 +2,7 @@
 EXTENDS ApiCalls, Json
 \* breadth-first: per-transition emission; the view hides the history so that every abstract situation is extended by
 \* every call once
-view == <<closed, txn, sps, h1, uExists, marked, Len(hist), fin>>
+view == <<closed, txn, sps, h1, uExists, uCols, marked, Len(hist), fin>>
 Emit == (hist' # hist) => PrintT(<<"T", ToJson([hist |-> hist'])>>)
 \* random walks: the complete sequence is emitted once, when it is handed over
 EmitFin == (fin' /\ ~fin) => PrintT(<<"T", ToJson([hist |-> hist])>>)
